@@ -49,9 +49,35 @@ def fault_job(job):
         for i in pos:
             t2 = ''.join(toks[:i] + toks[i + 1:])
             out.append(('missing ' + toks[i], t2, props, PC.impl_parse(t2, props)))
+        # a bracketed group written twice in a row ("[pk] [not null]", "(a, b)(a, b)", "{ ... }{ ... }")
+        close = {'[': ']', '(': ')', '{': '}'}
+        for i in pos:
+            if toks[i] in close:
+                depth, j = 0, i
+                while j < len(toks):
+                    if toks[j] == toks[i]:
+                        depth += 1
+                    elif toks[j] == close[toks[i]]:
+                        depth -= 1
+                        if depth == 0:
+                            break
+                    j += 1
+                if j < len(toks):
+                    grp = toks[i:j + 1]
+                    for sep in ('', ' '):
+                        t2 = ''.join(toks[:j + 1] + [sep] + grp + toks[j + 1:])
+                        out.append(('duplicated ' + toks[i] + ' group', t2, props, PC.impl_parse(t2, props)))
+        # an identifier or keyword written twice in a row
+        words = [i for i, t in enumerate(toks) if t[:1].isalnum() or t[:1] == '_' or t[:1] == '"']
+        rng.shuffle(words)
+        for i in words[:25]:
+            t2 = ''.join(toks[:i + 1] + [' ', toks[i]] + toks[i + 1:])
+            out.append(('word-twice', t2, props, PC.impl_parse(t2, props)))
         bounds = list(range(len(toks) + 1))
         rng.shuffle(bounds)
         for i in bounds[:40]:
+            if i > 0 and toks[i - 1].startswith('//'):
+                continue        # text appended to a line comment is part of the comment
             b = rng.choice(BRACKETS)
             t2 = ''.join(toks[:i] + [b] + toks[i:])
             out.append(('extra ' + b, t2, props, PC.impl_parse(t2, props)))
@@ -114,7 +140,7 @@ def main(tier, seed):
         ctx.case(core.h(text), True, sample={'fault': kind, 'outcome': got, 'text_tail': text[-160:]} if len(ctx.samples) < 6 and kind != 'trailing garbage' else None)
         ctx.count('fault:' + kind.split(' ')[0])
         ctx.count('outcome:' + got.split(':')[0])
-        if got == 'ok':
+        if got == 'ok' and kind not in ('word-twice', 'duplicated ( group'):   # those two can stay valid (verdict correspondence only)
             ctx.fail(f'a document with a provably invalid part ({kind}) is accepted', {'op': 'fault', 'kind': kind, 'text': text, 'props': props})
         texts.append((text, props, r))
     # random mutation stream (verdict correspondence; most mutants are invalid, some stay valid)
